@@ -11,7 +11,7 @@ CHECK = {
  'rule': 'per combination of fan back-end {hwmon,file,cmd} x sensor back-end {hwmon,file,cmd} x curve {linear, pid, function(linear), function(pid+linear), each of the six function types over two PID members}: the fault-free run, every single fault '
          '(component in {sensor read, RPM read, PWM read, PWM write, mode write} x kind in {read error, non-numeric, whitespace-only, empty content (real file content, parsed by fan2go itself); write error, silently ignored write} x control-cycle window 0..4) , every single fault that persists from window 2 until shutdown, every read-side fault paired with a write-side fault in the same control period, and further pairs (quick: 4 combinations, windows 0..2; '
          'thorough: all combinations). A fault makes every operation of that component fail during one control period. Oracle: the process exits 0 and only after the final SIGTERM, no Go panic / fatal error in its '
-         'output, and after exit every fan is in its original mode (if that was not manual) or at PWM 255. "Keeps regulating" family (per fan back-end, linear curve): the sensor jumps from 60 to 75 degrees during window 1 so that the target keeps moving, PWM-read faults only (error / non-numeric; windows 1, 2, 4 and persistent from window 2): just before the final SIGTERM the fan must be at the PWM value the fault-free run of the same job shows. distinct_nontrivial = distinct (job, outcome) pairs. Component moderead: the read-back of pwm_enable fails or is garbage. Windows -18 (fault present when the daemon starts), -2 and -1 (first RPM-monitor tick before the first control cycle) for the read components. The daemon child runs in a desktop session (DISPLAY set, who without a matching entry) so that control errors go through the notification look-up.',
+         'output, and after exit every fan is in its original mode (if that was not manual) or at PWM 255. "Keeps regulating" family (per fan back-end, linear curve): the sensor jumps from 60 to 75 degrees during window 1 so that the target keeps moving, PWM-read faults only (error / non-numeric; windows 1, 2, 4 and persistent from window 2): just before the final SIGTERM the fan must be at the PWM value the fault-free run of the same job shows. distinct_nontrivial = distinct (job, outcome) pairs. Component moderead: the read-back of pwm_enable fails or is garbage. Windows -18 (fault present when the daemon starts), -2 and -1 (first RPM-monitor tick before the first control cycle) for the read components. The daemon child runs in a desktop session (DISPLAY set, who without a matching entry) so that control errors go through the notification look-up. Read faults additionally include well-formed integers far outside the register range (65535, -32768) from the PWM and RPM files at start-up, before the first cycle and in cycles 0, 1, 3.',
  'assumptions': COMMON_ASSUME + ['gosensors stand-in and vsignal stand-in (DESIGN 2.1)', 'cmd back-ends are root-owned /bin/sh scripts whose behaviour is switched through a mode file'],
  'level_text': 'all single faults and fault pairs within the stated windows, each execution being a whole daemon life cycle in its own process',
  'level_note': 'faults are window-granular (one control period), not per individual operation; at most two faults per execution',
